@@ -26,7 +26,7 @@ RULE = ("allocsafe7: destination precision 1..6 limbs, operand lengths 0, 1, pre
         "mpf_add: exponent difference 0, 1, usize-1, usize, usize+1, prec-1, prec, prec+1, large, either operand the larger exponent, a zero operand, "
         "alias modes r==u, r==v, u==v, r==u==v; mul_2exp/div_2exp: counts 0, 1, 63, 64, 65, multiples of 64, operand longer than prec (rshift path) or not (lshift path, carry limb zero / non-zero), r==u; mul_ui: v = 0, 1, 2^64-1, 2^63, carries propagating out of the dropped limbs")
 
-PINS = [("mpf/mul_2exp.c", None), ("mpf/div_2exp.c", None), ("mpf/set.c", None), ("mpf/set_ui.c", None), ("mpf/set_si.c", None), ("mpf/set_z.c", None), ("mpf/mul_ui.c", None), ("mpf/add.c", None)]
+PINS = [("mpf/sub.c", None), ("mpf/neg.c", None), ("mpf/mul_2exp.c", None), ("mpf/div_2exp.c", None), ("mpf/set.c", None), ("mpf/set_ui.c", None), ("mpf/set_si.c", None), ("mpf/set_z.c", None), ("mpf/mul_ui.c", None), ("mpf/add.c", None)]
 
 def limbs(rng, n):
     """n limbs, top non-zero, special shapes on purpose"""
@@ -102,6 +102,56 @@ def gen_add(rng):
     s_v = s if nv else 0
     return "as7_add %x %x %x %s %s %x %s %s" % (m, p, s_u, hx(eu), vec(du), s_v, hx(ev), vec(dv))
 
+def gen_sub(rng):
+    """mpf_sub / mpf_add with every sign combination, directed at the cancellation paths of mpf/sub.c: equal exponents and k equal high limbs
+    (the scan), then a differing limb (either operand larger), one operand a prefix of the other (`usize == 0` / `vsize == 0` -> cancellation:),
+    x+1 000... / x fff... neighbours and exponent difference 1 with 1 000... / 0 fff... (the close path, TMP extent usize + 1), v a one-ulp
+    neighbour of u, complete cancellation (u == v), operands longer than the precision, low zero limbs (the strip loops), exponent
+    differences around prec = PREC + 1"""
+    p = prec_(rng)
+    op = rng.choice(["as7_sub", "as7_sub", "as7_add"])
+    m = rng.choice([0, 0, 0, 1, 1, 2, 2, 3, 4])
+    c = rng.randrange(10)
+    nu = max(1, length(rng, p)); nv = max(1, length(rng, p))
+    du = limbs(rng, nu); dv = limbs(rng, nv)
+    eu = expo(rng); ed = 0
+    if c == 0:      # k equal high limbs then a differing one
+        k = rng.randrange(1, min(nu, nv) + 1)
+        dv[nv - k:] = du[nu - k:]
+        if k < min(nu, nv): dv[nv - k - 1] = (du[nu - k - 1] + rng.choice([1, -1, 2, 1 << 63])) % B
+    elif c == 1:    # one operand is the top part of the other
+        k = min(nu, nv); dv[nv - k:] = du[nu - k:]
+        if rng.random() < 0.5 and nv > k: dv[: nv - k] = [0] * (nv - k - 1) + [rng.choice([0, 1])]
+    elif c == 2:    # x+1 000... / x fff...
+        x = rng.getrandbits(63) + 1
+        z = rng.randrange(0, nu); f = rng.randrange(0, nv)
+        du = limbs(rng, nu - 1 - z) + [0] * z + [x + 1] if nu - 1 - z > 0 else [0] * (nu - 1) + [x + 1]
+        dv = limbs(rng, nv - 1 - f) + [M] * f + [x] if nv - 1 - f > 0 else [M] * (nv - 1) + [x]
+        nu = len(du); nv = len(dv)
+    elif c == 3:    # ediff 1: 1 000... / 0 fff...
+        z = rng.randrange(0, nu)
+        du = (limbs(rng, nu - 1 - z) if nu - 1 - z > 0 else []) + [0] * min(z, nu - 1) + [1]
+        dv = (limbs(rng, nv - 1 - min(z, nv - 1)) if nv - 1 - min(z, nv - 1) > 0 else []) + [M] * min(z + 1, nv)
+        du = du[-nu:]; dv = dv[-nv:] if dv[-1] else [M]
+        nu = len(du); nv = len(dv); ed = 1
+    elif c == 4:    # one-ulp neighbour
+        dv = list(du); nv = nu
+        i = 0
+        dv[0] = (dv[0] + rng.choice([1, -1])) % B
+        if dv[-1] == 0: dv[-1] = 1
+    elif c == 5:    # identical
+        dv = list(du); nv = nu
+    else:
+        ed = rng.choice([0, 1, 1, 2, nu - 1, nu, nu + 1, p - 1, p, p + 1, p + 2, p + 1 - nv, p + 2 - nv, nu - nv, 1 << 33, rng.randrange(0, p + 4)])
+        ed = max(ed, 0)
+    if rng.random() < 0.5: ed = -ed
+    su = rng.randrange(2); sv = rng.randrange(2) if c >= 6 and rng.random() < 0.4 else (su if op == "as7_sub" else 1 - su)
+    if rng.random() < 0.05: du = []; su = 0; eu = 0
+    if rng.random() < 0.05: dv = []; sv = 0
+    ev = (eu - ed) if dv else 0
+    if not du: eu = 0
+    return "%s %x %x %x %s %s %x %s %s" % (op, m, p, su, hx(eu), vec(du), sv, hx(ev), vec(dv))
+
 def gen_ops(rng, tier, ctx=None):
     n = 700 if tier == "quick" else 20000
     for _ in range(n):
@@ -110,6 +160,8 @@ def gen_ops(rng, tier, ctx=None):
         yield gen_add(rng)
         yield gen_add(rng)
         yield gen_2exp(rng)
+        yield gen_sub(rng)
+        yield gen_sub(rng)
         if _ % 2 == 0: yield gen_set_z(rng)
         if _ % 4 == 1: yield gen_set_ui(rng)
         if _ % 4 == 3: yield gen_set_si(rng)
